@@ -7,7 +7,7 @@ replay = _grid.replay
 
 def run(ctx):
     q = ctx.quick
-    ctx.model_check(_grid.MC, "Grid_C09.cfg")
+    ctx.model_check(_grid.MC, "Grid_C09.cfg" if q else "Grid_C09_thorough.cfg")      # thorough: all 729 shapes 0..8 per axis
     ctx.negative_control(_grid.MC, "Grid_C09_neg_raw_id.cfg", "C09_Injective")
     ctx.negative_control(_grid.MC, "Grid_C09_neg_raw_bounds.cfg", "C09_Bounds")
     n = 3 if q else 5
